@@ -347,6 +347,61 @@ struct Recorder {
     recs: Vec<Rec>,
 }
 
+/// A processor that is not interested in (all of) the object data: it reads
+/// none or only a prefix of each object. Everything else it is told - and the
+/// success of the whole parse - must not depend on that.
+struct LazyRecorder {
+    ctx: Arc<SimCtx>,
+    recs: Vec<Rec>,
+}
+
+impl LazyRecorder {
+    fn nibble(&self, data: &mut ObjectReader) -> Result<Vec<u8>, ProcessError> {
+        let want = match self.ctx.choose(3) { 0 => 0usize, 1 => 1, _ => 1 + self.ctx.choose(64) as usize };
+        let mut buf = vec![0u8; want];
+        let mut got = 0;
+        while got < want {
+            let n = data.read(&mut buf[got..])?;
+            if n == 0 {
+                break;
+            }
+            got += n;
+        }
+        buf.truncate(got);
+        Ok(buf)
+    }
+}
+
+impl ProcessSnapshot for LazyRecorder {
+    type Err = ProcessError;
+    fn meta(&mut self, session_id: Uuid, serial: u64) -> Result<(), Self::Err> {
+        self.recs.push(Rec::Meta(session_id, serial));
+        Ok(())
+    }
+    fn publish(&mut self, uri: uri::Rsync, data: &mut ObjectReader) -> Result<(), Self::Err> {
+        let d = self.nibble(data)?;
+        self.recs.push(Rec::Publish(uri.to_string(), None, d));
+        Ok(())
+    }
+}
+
+impl ProcessDelta for LazyRecorder {
+    type Err = ProcessError;
+    fn meta(&mut self, session_id: Uuid, serial: u64) -> Result<(), Self::Err> {
+        self.recs.push(Rec::Meta(session_id, serial));
+        Ok(())
+    }
+    fn publish(&mut self, uri: uri::Rsync, hash: Option<Hash>, data: &mut ObjectReader) -> Result<(), Self::Err> {
+        let d = self.nibble(data)?;
+        self.recs.push(Rec::Publish(uri.to_string(), hash, d));
+        Ok(())
+    }
+    fn withdraw(&mut self, uri: uri::Rsync, hash: Hash) -> Result<(), Self::Err> {
+        self.recs.push(Rec::Withdraw(uri.to_string(), hash));
+        Ok(())
+    }
+}
+
 impl Recorder {
     /// Reads object data in tape-chosen read sizes.
     fn slurp(&self, data: &mut ObjectReader) -> Result<Vec<u8>, ProcessError> {
@@ -559,6 +614,33 @@ impl C09 {
             }
             out.evaluations += 1;
             counters.bump("streaming_process_checked");
+
+            // the same with a processor that reads little or nothing of the data
+            let mut r = reader(ctx, &bytes, rcfg);
+            let mut lazy = LazyRecorder { ctx: ctx.clone(), recs: Vec::new() };
+            let res = guarded("process-lazy", || {
+                Ok(match doc {
+                    Doc::Snapshot(_) => ProcessSnapshot::process(&mut lazy, &mut r).map_err(|e| e.to_string()),
+                    _ => ProcessDelta::process(&mut lazy, &mut r).map_err(|e| e.to_string()),
+                })
+            })?;
+            if let Err(e) = res {
+                return Err(Violation::new("roundtrip-rejected", "process-lazy", format!("a processor that does not read all object data makes the parse of a library-written {} fail: {}", doc.kind(), e)));
+            }
+            let want = expected_recs(doc);
+            let same = lazy.recs.len() == want.len() && lazy.recs.iter().zip(want.iter()).all(|(g, w)| match (g, w) {
+                (Rec::Publish(u1, h1, d1), Rec::Publish(u2, h2, d2)) => u1 == u2 && h1 == h2 && d2.starts_with(d1),
+                (a, b) => a == b,
+            });
+            if !same {
+                return Err(Violation::new(
+                    "roundtrip-mismatch",
+                    "process-lazy",
+                    format!("a processor that reads only a prefix of each object was told a different element sequence for {}", doc.summary()),
+                ));
+            }
+            out.evaluations += 1;
+            counters.bump("streaming_process_lazy_checked");
         }
 
         // the notification's pure predicates and parse_limited ride along
